@@ -290,7 +290,12 @@ def c07Sample : Handler := fun c => do
           let r ← getNat e "ref"
           let idx ← getNatList e "idx"
           let ss ← getNatList e "sshape"
-          pure (CallOp.setValue r ⟨ss ++ batchShape N ++ [width], idx.map (fun i => rowsA.getD i [])⟩)) t
+          -- "pad": the paths padded with eos up to the step limit (`torch.nn.functional.pad`)
+          let pad := match fieldOpt e "pad", eos, Topt with
+            | some (Json.bool true), some _, some t => t - width
+            | _, _, _ => 0
+          pure (CallOp.setValue r ⟨ss ++ batchShape N ++ [width + pad],
+            idx.map (fun i => rowsA.getD i [] ++ List.replicate pad (eos.getD 0))⟩)) t
   let cfg := fun (cache : Bool) => distCfg lm V eos Topt N cache va
   let aliased := fun (cache : Bool) => listJ distOutJ (runAliased (cfg cache) AliasState.init ops)
   let repaired := fun (cache : Bool) => listJ distOutJ (runCalls (cfg cache) ops)
